@@ -340,38 +340,44 @@ impl<F: Write + Seek> Directory<F> {
         debug_assert_eq!(self.dir_entry(stream_id).child, consts::NO_STREAM);
 
         // Restructure the tree.
-        let mut replacement_id = consts::NO_STREAM;
-        loop {
-            let left_sibling = self.dir_entry(stream_id).left_sibling;
-            let right_sibling = self.dir_entry(stream_id).right_sibling;
-            if left_sibling == consts::NO_STREAM
-                && right_sibling == consts::NO_STREAM
-            {
-                break;
-            } else if left_sibling == consts::NO_STREAM {
-                replacement_id = right_sibling;
-                break;
-            } else if right_sibling == consts::NO_STREAM {
-                replacement_id = left_sibling;
-                break;
-            }
+        let left_sibling = self.dir_entry(stream_id).left_sibling;
+        let right_sibling = self.dir_entry(stream_id).right_sibling;
+        let replacement_id = if left_sibling == consts::NO_STREAM {
+            right_sibling
+        } else if right_sibling == consts::NO_STREAM {
+            left_sibling
+        } else {
+            // The entry has two children, so its in-order predecessor (the
+            // rightmost entry of its left subtree) takes its place.  The
+            // predecessor is relinked, not copied into the removed entry's
+            // slot: every remaining entry must keep its stream ID, because
+            // open Stream handles refer to their entry by ID.
+            let mut pred_parent_id = stream_id;
             let mut predecessor_id = left_sibling;
             loop {
-                stream_ids.push(predecessor_id);
                 let next_id = self.dir_entry(predecessor_id).right_sibling;
                 if next_id == consts::NO_STREAM {
                     break;
                 }
+                pred_parent_id = predecessor_id;
                 predecessor_id = next_id;
             }
-            let mut pred_entry = self.dir_entry(predecessor_id).clone();
-            debug_assert_eq!(pred_entry.right_sibling, consts::NO_STREAM);
-            pred_entry.left_sibling = left_sibling;
-            pred_entry.right_sibling = right_sibling;
-            pred_entry.write_to(&mut self.seek_to_dir_entry(stream_id)?)?;
-            *self.dir_entry_mut(stream_id) = pred_entry;
-            stream_id = predecessor_id;
-        }
+            if pred_parent_id != stream_id {
+                // Detach the predecessor from its parent, which adopts the
+                // predecessor's left subtree; the predecessor then adopts the
+                // removed entry's left subtree.
+                let pred_left = self.dir_entry(predecessor_id).left_sibling;
+                self.dir_entry_mut(pred_parent_id).right_sibling = pred_left;
+                let mut sector =
+                    self.seek_within_dir_entry(pred_parent_id, 72)?;
+                sector.write_le_u32(pred_left)?;
+                self.dir_entry_mut(predecessor_id).left_sibling =
+                    left_sibling;
+            }
+            self.dir_entry_mut(predecessor_id).right_sibling = right_sibling;
+            self.write_dir_entry(predecessor_id)?;
+            predecessor_id
+        };
         // TODO: recolor nodes
 
         // Remove the entry.
